@@ -27,7 +27,7 @@ theorem %s_ok : f_%s.ok (fun _ ks => %s_L ks) = true := by decide +kernel
 end Glm.Props.%s
 ''' % (prop, prop, unit, name, prop, prop, prop, name, name, unit, prop))
 for f in os.listdir(d):
-    if f.endswith('.lean') and f not in keep: os.remove(os.path.join(d, f))
+    if f.endswith('.lean') and f.startswith('T_') and f not in keep: os.remove(os.path.join(d, f))
 imports = ''.join('import GlmVerif.Props.%s.T_%s\n' % (prop, n) for n, _ in fams)
 items = ',\n    '.join('(Family.ok_congr f_%s (fun ks => by rw [show f_%s.unit = "%s" from rfl, lookup_%s])).trans %s_ok' % (n, n, u, u, n) for n, u in fams)
 open(os.path.join(d, 'All.lean'), 'w').write('''import GlmVerif.Gen.%s
